@@ -78,6 +78,8 @@ type r1 struct {
 	sites     map[accKey]bool // every field access event seen in any calling context
 	// captured-by-escaping-literal locals, global
 	capturedBy map[*types.Var][]*ast.FuncLit
+	// loops in which a variable declared outside them is captured by an escaping literal
+	sharedInLoop map[*types.Var][]ast.Node
 	escOf      map[*ast.FuncLit]core.LitEscape
 	// option callback construction check
 	applyCalls []string
@@ -151,7 +153,7 @@ func runR1(c *Ctx) {
 	r := &r1{c: c, seen: map[string]bool{}, accesses: map[*types.Var][]*r1Access{},
 		fieldCalls: map[*types.Var][]r1FieldCall{}, fieldLits: map[*types.Var]map[*ast.FuncLit]*r1Context{}, fieldFuncs: map[*types.Var]map[*types.Func]*r1Context{},
 		edges: map[[2]*types.Var]token.Pos{}, hygiene: map[string]*Obligation{},
-		freshFn: map[*core.FuncDecl]bool{}, ctxVars: map[*r1Context]map[*types.Var]bool{}, capturedBy: map[*types.Var][]*ast.FuncLit{}, escOf: map[*ast.FuncLit]core.LitEscape{}}
+		freshFn: map[*core.FuncDecl]bool{}, ctxVars: map[*r1Context]map[*types.Var]bool{}, capturedBy: map[*types.Var][]*ast.FuncLit{}, sharedInLoop: map[*types.Var][]ast.Node{}, escOf: map[*ast.FuncLit]core.LitEscape{}}
 	// escape information for all functions in scope
 	for _, d := range c.declsInScope() {
 		ei := core.EscapesOf(c.Prog, d)
@@ -162,6 +164,33 @@ func runR1(c *Ctx) {
 			}
 			for _, v := range ei.Captured[lit] {
 				r.capturedBy[v] = append(r.capturedBy[v], lit)
+			}
+		}
+		// a literal that escapes from inside a loop and captures a variable declared outside that loop:
+		// in the next trip the variable is already shared, so every access inside the loop counts — also
+		// the ones that precede the literal in the loop body (loops are walked for a bounded number of trips)
+		var loops []ast.Node
+		ast.Inspect(d.Decl, func(n ast.Node) bool {
+			switch n.(type) {
+			case *ast.ForStmt, *ast.RangeStmt:
+				loops = append(loops, n)
+			}
+			return true
+		})
+		for lit, e := range ei.Esc {
+			if e == core.EscNone {
+				continue
+			}
+			for _, l := range loops {
+				if !(lit.Pos() >= l.Pos() && lit.End() <= l.End()) {
+					continue
+				}
+				for _, v := range ei.Captured[lit] {
+					if v.Pos() >= l.Pos() && v.Pos() < l.End() {
+						continue
+					}
+					r.sharedInLoop[v] = append(r.sharedInLoop[v], l)
+				}
 			}
 		}
 	}
@@ -485,6 +514,13 @@ func (r *r1) walkContext(x *r1Context) {
 					continue
 				}
 				counted := escaped[v] || escaped[baseVar(v)]
+				if !counted {
+					for _, l := range r.sharedInLoop[baseVar(v)] {
+						if ev.Pos >= l.Pos() && ev.Pos < l.End() {
+							counted = true
+						}
+					}
+				}
 				if !counted {
 					for f := ev.Frame; f != nil; f = f.Parent {
 						if f.Lit != nil && r.escOf[f.Lit] != core.EscNone && !(v.Pos() >= f.Lit.Pos() && v.Pos() < f.Lit.End()) {
